@@ -571,7 +571,7 @@ example : lastWrittenOr (.opt none) (.url .auth) [Op.set_auth_uri u1, .set_clien
 /-- the invariant is not vacuous: it excludes a (non-reachable) configuration -/
 example : ¬ Inv { Client.new [] with ts_token := .set } := by
   intro h; have := h .token rfl; simp [url, urlField, Client.opt, Client.new] at this
-example : run { Client.new [] with ts_token := .set } "exchange_code" = .panic "should have token_url" := by decide
+example : ∃ msg, run { Client.new [] with ts_token := .set } "exchange_code" = .panic msg := ⟨_, rfl⟩
 end examples
 
 end C11
